@@ -100,7 +100,7 @@ def run_shard(shard):
             continue
         judge_text(acc, "catalogue", it.mode, it.version, it.teal, {"source": "catalogue", "mode": it.mode, "version": it.version, "desc": jsonable(it.desc)}, seen,
                    anytype=it.anytype)
-    for gen in (feed.corpus_items(pt, rng, shard["shard"], shard["nshards"]), feed.label_items(pt, rng, shard["labels"]), feed.tail_items(pt, rng, 3 * shard["labels"]), feed.sequence_items(pt, rng, shard["labels"]), feed.router_items(pt, rng, shard["routers"]),
+    for gen in (feed.corpus_items(pt, rng, shard["shard"], shard["nshards"]), feed.label_items(pt, rng, shard["labels"]), feed.declared_type_items(pt, rng), feed.tail_items(pt, rng, 3 * shard["labels"]), feed.sequence_items(pt, rng, shard["labels"]), feed.router_items(pt, rng, shard["routers"]),
                 feed.abi_items(pt, rng, shard["abi"])):
         for it in gen:
             if it.teal is None:
@@ -121,6 +121,8 @@ def run_shard(shard):
                 recipe, mode = c01.first_statement_family(rng), "app"
             elif r < .55:
                 recipe = recipes.Gen(rng, version=vgen, mode=mode, min_subs=rng.choice([0, 1]), call_bias=.05).program()
+            elif r < .62 and mode == "app":
+                recipe = c02.byref_family(rng) if rng.random() < .6 else c02.recursive_byref_local(rng)
             elif r < .75 and mode == "app":
                 recipe = c02.mutual_family(rng)
             elif mode == "app":
